@@ -3,6 +3,7 @@ import XeofsProofs.Lemmas.Misc13
 import XeofsProofs.Props.C04
 import XeofsModel.Scaler
 import Mathlib.Data.Matrix.ColumnRowPartitioned
+import XeofsModel.Generated.Facts
 /-!
 # C05 — out-of-sample transform is a per-sample map labelled by the new data
 -/
@@ -38,5 +39,11 @@ theorem transform_subset_of_training (hk : k ≤ r) (X : Mat n p 𝕜) (U : Mat 
   unfold eofTransform
   rw [toMatrix_mul, toMatrix_mul, Matrix.mul_apply, Matrix.mul_apply]
   simp only [toMatrix_apply, hrow]
+
+/-- source obligations (sample MultiIndex): every `transform` records the coordinates of the data it was given, and the inverse used
+for unseen data reads exactly that record — never the coordinates remembered from `fit` -/
+theorem src_transform_records_new_coords :
+    Gen.multiIndexTransformAlwaysRecords = true ∧ Gen.multiIndexInverseReadsChosenReference = true ∧
+    Gen.multiIndexDictsSeparate = true := by decide
 
 end C05
